@@ -259,7 +259,9 @@ fn boundary_alphabet(f: &Field) -> Vec<BigUint> {
     let two = BigUint::from(2u32);
     let bits = f.bits;
     let mut v: Vec<BigUint> = Vec::new();
-    for s in [0u64, 1, 2, 3, 63, 64, 255, 256, 65536, 1 << 32, 100_000_000_000, 1 << 63, u64::MAX] {
+    // (mid-sized values: exponents and shift counts that fit a machine word but are far too
+    // large for anything but modular exponentiation)
+    for s in [0u64, 1, 2, 3, 63, 64, 255, 256, 65536, 1 << 24, 1 << 30, u32::MAX as u64, 1 << 32, 100_000_000_000, 1 << 63, u64::MAX] {
         v.push(BigUint::from(s));
     }
     v.push(BigUint::from(u64::MAX) + &one);
